@@ -88,6 +88,21 @@ def _vary_cpus(i, rec):
     rec.count("case_processes_with_cpus:%d" % k)
 
 
+def _vary_warnings(i, rec):
+    """The embedding program's warnings filter: every third case process turns the warnings attributed to the
+    repository's own modules into errors (`-W error` / pytest's filterwarnings=error, scoped to amr_kitchen so
+    that third-party noise such as multiprocessing's fork warning stays out). RuntimeWarning is left alone:
+    numpy raises it for invalid operations on NaN / inf data, which are the data's own. Forked pool workers
+    inherit the filter. A tool that then fails loudly is judged by the check like any other failure; one that
+    swallows the error and returns something else is what this is for."""
+    if os.environ.get("VERIF_WARNINGS", "vary") != "vary" or i % 3 != 2:
+        return
+    import warnings
+    for cat in (DeprecationWarning, PendingDeprecationWarning, FutureWarning, UserWarning):
+        warnings.filterwarnings("error", category=cat, module=r"amr_kitchen(\.|$)")
+    rec.count("case_processes_with_repository_warnings_as_errors")
+
+
 def _child(i, case, fn, resdir, workroot, quiet):
     try:
         os.setpgid(0, 0)
@@ -100,6 +115,7 @@ def _child(i, case, fn, resdir, workroot, quiet):
     out = {"i": i}
     linecov.start(f"{os.getppid()}_{i}")
     _vary_cpus(i, rec)
+    _vary_warnings(i, rec)
     try:
         if quiet:
             with common.quiet_fds(os.path.join(work, ".stdio")):
